@@ -61,7 +61,13 @@ func Eval(c *Const, t *TypeRef) *LVal {
 			if c.Kind == CInt {
 				return &LVal{K: LDouble, F: float64(c.Int), Type: rt}
 			}
-			return &LVal{K: LDouble, F: c.Dbl, Type: rt}
+			f := c.Dbl
+			if f == 0 {
+				// the literals 0.0 and -0.0 denote the same number; the sign of a
+				// zero literal is not something a typed constant preserves
+				f = 0
+			}
+			return &LVal{K: LDouble, F: f, Type: rt}
 		case BString, BBinary:
 			return &LVal{K: LString, S: c.Str, Type: rt}
 		}
